@@ -20,6 +20,10 @@ def fold(log):
             continue
         if cur is None:
             continue
+        m = re.match(r"CHECKS_RUN: (.*)", line)
+        if m:
+            data["checks_override"] = m.group(1).split()
+            continue
         m = re.match(r"(C\d\d) rc=(\d) *(.*)", line)
         if m and m.group(2) == "1":
             data["signatures"][m.group(1)] = [s.strip() for s in m.group(3).split(";") if s.strip()][:3]
@@ -28,7 +32,11 @@ def fold(log):
             p = os.path.join(ROOT, cur, "meta.json")
             if os.path.exists(p):
                 meta = json.load(open(p))
-                meta["evaluation"] = {"how": "tools/seeded.sh eval: patch applied to a private worktree of /repo HEAD, quick checks run through VERIF_REPO at VERIF_SEED=0", "checks_run": data.get("checks_override") or ALL, "caught_by": m.group(1).split(), "signatures": data["signatures"]}
+                if data.get("checks_override"):
+                    # second pass with the final harness: the property's own check (+ the ones recorded before)
+                    meta["final_check"] = {"how": "tools/seeded.sh eval with the harness as committed at the end; only the listed checks were run", "checks_run": data["checks_override"], "caught_by": m.group(1).split(), "signatures": data["signatures"]}
+                else:
+                    meta["evaluation"] = {"how": "tools/seeded.sh eval: patch applied to a private worktree of /repo HEAD, all quick checks of the group run through VERIF_REPO at VERIF_SEED=0 (harness as of that time)", "checks_run": ALL, "caught_by": m.group(1).split(), "signatures": data["signatures"]}
                 json.dump(meta, open(p, "w"), indent=1)
             cur = None
 
@@ -38,10 +46,15 @@ def readme():
         name = os.path.basename(os.path.dirname(d))
         m = json.load(open(d))
         ev = m.get("evaluation", {})
-        rows.append((name, m.get("property", name[:3]), (m.get("summary", "") or "").replace("\n", " ")[:170], (m.get("needs", "") or "").replace("\n", " ")[:150], " ".join(ev.get("caught_by", [])) or ("(not evaluated yet)" if not ev else "MISSED")))
+        fc = m.get("final_check", {})
+        prop = m.get("property", name[:3])
+        union = sorted(set(ev.get("caught_by", [])) | set(fc.get("caught_by", [])))
+        own = "yes" if prop in fc.get("caught_by", []) or (not fc and prop in ev.get("caught_by", [])) else ("no" if (fc or ev) else "?")
+        rows.append((name, prop, (m.get("summary", "") or "").replace("\n", " ")[:170], (m.get("needs", "") or "").replace("\n", " ")[:150], " ".join(union) or ("(not evaluated yet)" if not (ev or fc) else "MISSED"), own))
     with open(ROOT + "/README.md", "w") as f:
         f.write("# Seeded changes\n\nEach directory holds `patch.diff` (applies to /repo HEAD), the sub-agent's demonstration (`demo.*`: passes on the clean tree, fails with the change) and `meta.json` (what the change needs to manifest, what was run to confirm it, which quick checks catch it). None of these changes is ever committed to /repo.\n\n")
-        f.write("| name | property | change | needs | caught by (quick, seed 0) |\n|---|---|---|---|---|\n")
+        f.write("`caught by` is the union of the full evaluation made when the change came in (all quick checks, harness of that time) and the final pass (harness as committed; the property's own check plus the ones recorded before). `own` says whether the check of the very property the change was written against reports it with the final harness.\n\n")
+        f.write("| name | property | change | needs | caught by (quick, seed 0) | own |\n|---|---|---|---|---|---|\n")
         for r in rows:
             f.write("| " + " | ".join(x.replace("|", "/") for x in r) + " |\n")
     print(f"README: {len(rows)} seeded changes")
